@@ -107,8 +107,19 @@ Theorem C05_byref_nogap :
 Proof. exact byref_nogap_bool. Qed.
 Print Assumptions C05_byref_nogap.
 
-(* With gaps in the reference the frame-0 clause is kept as an explicit statement, NOT proved for the
-   model here; every generated case is checked against it by Corr/C05.v spec_ok (bounded). *)
+(* With gaps anywhere (reference or other rows), for every alphabet, code and phase: all rows of the
+   reference-guided translation have one length (each reference codon contributes the same number of
+   positions to every row) *)
+Theorem C05_byref_rows_same_length :
+  forall alphabet gc phase refname rs out,
+  translate_by_reference alphabet gc phase refname rs = Some out ->
+  forall r r', In r out -> In r' out -> length (snd r) = length (snd r').
+Proof. exact byref_rows_same_length. Qed.
+Print Assumptions C05_byref_rows_same_length.
+
+(* The prefix clause of frame 0 (the ungapped translated reference is a prefix of the translation of the ungapped
+   reference) is kept as an explicit statement, NOT proved for the model here; every generated case is checked
+   against it by Corr/C05.v spec_ok (bounded). *)
 Definition is_prefix (a b : list byte) : Prop := exists t, b = a ++ t.
 
 Definition C05_byref_frame0_statement : Prop :=
